@@ -68,6 +68,7 @@ Definition tstep (e : env) (s : ost) (th : tstate) : option (ost * tstate) :=
                        end
                    | QSchema t => mkTs [MInit; MReadBt t] qs (ts_ans th) COk
                    | QSub fv sc => mkTs [MSet fv sc false] qs (ts_ans th) COk
+                   | QFail => mkTs [] [] (ts_ans th) CErr
                    end)
       end
   end.
